@@ -32,6 +32,9 @@ structure TermEnc where
   names : LookupEnc
   prefixes : LookupEnc
   datatypes : LookupEnc
+  /-- `TermEncoder.row_open`: a row was started (`start_row`) and not finished (`end_row`). It stays
+      set when the row is abandoned by an exception. -/
+  rowOpen : Bool := false
 deriving Repr, DecidableEq, Inhabited
 
 def TermEnc.new (maxNames maxPrefixes maxDatatypes : Nat) : TermEnc :=
@@ -42,14 +45,33 @@ def TermEnc.new (maxNames maxPrefixes maxDatatypes : Nat) : TermEnc :=
 def LookupEnc.startRow (e : LookupEnc) : LookupEnc := { e with lookup := { e.lookup with pinned := some [] } }
 
 def TermEnc.startRow (te : TermEnc) : TermEnc :=
-  { names := te.names.startRow, prefixes := te.prefixes.startRow, datatypes := te.datatypes.startRow }
+  { names := te.names.startRow, prefixes := te.prefixes.startRow, datatypes := te.datatypes.startRow, rowOpen := true }
+
+/-- `bool(lookup.pinned)`: tracked and not empty. -/
+def LookupEnc.hasPins (e : LookupEnc) : Bool :=
+  match e.lookup.pinned with
+  | some (_ :: _) => true
+  | _ => false
+
+/-- The previous row was abandoned after it had used the lookup tables: entries may have been
+    assigned whose rows were never sent. -/
+def TermEnc.broken (te : TermEnc) : Bool :=
+  te.rowOpen && (te.names.hasPins || te.prefixes.hasPins || te.datatypes.hasPins)
+
+/-- `TermEncoder.start_row()`: refuses (`JellyConformanceError`) on a broken encoder. -/
+def TermEnc.beginRow (te : TermEnc) : Except PyErr TermEnc :=
+  if te.broken then .error .conformance else .ok te.startRow
 
 /-- The encoder state with the row-local bookkeeping (`pinned`) forgotten: what the NEXT row sees,
     since every row starts with `startRow`. -/
 def LookupEnc.unpin (e : LookupEnc) : LookupEnc := { e with lookup := { e.lookup with pinned := none } }
 
 def TermEnc.unpin (te : TermEnc) : TermEnc :=
-  { names := te.names.unpin, prefixes := te.prefixes.unpin, datatypes := te.datatypes.unpin }
+  { te with names := te.names.unpin, prefixes := te.prefixes.unpin, datatypes := te.datatypes.unpin }
+
+/-- `TermEncoder.end_row()`: the row is complete; nothing is tracked between rows. -/
+def TermEnc.endRow (te : TermEnc) : TermEnc :=
+  { names := te.names.unpin, prefixes := te.prefixes.unpin, datatypes := te.datatypes.unpin, rowOpen := false }
 
 /-- Result of a step that may raise after having changed the state. -/
 abbrev Res (σ α : Type) := σ × Except PyErr α
@@ -162,6 +184,9 @@ deriving Repr, DecidableEq, Inhabited
 
 def EncState.unpin (st : EncState) : EncState := { st with te := st.te.unpin }
 
+/-- The encoder state as the next row would find it if nothing is wrong: no pins, no open row. -/
+def EncState.idle (st : EncState) : EncState := { st with te := st.te.endRow }
+
 /-- One slot of `encode_spo`/`encode_quad`: compare with the repeated term, encode on a
     difference, then remember the term. `exc` is what `next(terms)` raises on a short tuple. -/
 def encSlot (enc : TermEnc → Term → Res TermEnc (List Row × WTerm))
@@ -173,9 +198,9 @@ def encSlot (enc : TermEnc → Term → Res TermEnc (List Row × WTerm))
     | (te', .error e) => (te', prev, .error e)
     | (te', .ok (rows, w)) => (te', some t, .ok (rows, some w))
 
-/-- `encode_triple` on an arbitrary tuple of terms (`exc` = StopIteration flavour). -/
-def encodeTriple (exc : PyErr) (st0 : EncState) (terms : List Term) : Res EncState (List Row) :=
-  let st : EncState := { st0 with te := st0.te.startRow }
+/-- The body of `encode_triple` after `start_row()`: `encode_spo` and the row (`exc` = StopIteration
+    flavour of a short tuple). The repeated terms are updated slot by slot. -/
+def encodeTripleBody (exc : PyErr) (st : EncState) (terms : List Term) : Res EncState (List Row) :=
   match terms with
   | [] => (st, .error exc)
   | s :: rest =>
@@ -199,9 +224,19 @@ def encodeTriple (exc : PyErr) (st0 : EncState) (terms : List Term) : Res EncSta
               ({ te := te3, rep := { st2.rep with o := ro } },
                .ok (r1 ++ r2 ++ r3 ++ [Row.triple ws wp wo]))
 
-/-- `encode_quad`. -/
-def encodeQuad (exc : PyErr) (st0 : EncState) (terms : List Term) : Res EncState (List Row) :=
-  let st : EncState := { st0 with te := st0.te.startRow }
+/-- `encode_triple`: `start_row()` (which refuses on a broken encoder, leaving everything as it
+    was); if a term cannot be encoded the repeated terms are put back (`repeated_terms[:] = previous`)
+    and the row stays open; otherwise `end_row()`. -/
+def encodeTriple (exc : PyErr) (st0 : EncState) (terms : List Term) : Res EncState (List Row) :=
+  match st0.te.beginRow with
+  | .error e => (st0, .error e)
+  | .ok te =>
+    match encodeTripleBody exc { st0 with te := te } terms with
+    | (st', .error e) => ({ st' with rep := st0.rep }, .error e)
+    | (st', .ok rows) => ({ st' with te := st'.te.endRow }, .ok rows)
+
+/-- The body of `encode_quad` after `start_row()`. -/
+def encodeQuadBody (exc : PyErr) (st : EncState) (terms : List Term) : Res EncState (List Row) :=
   match terms with
   | [] => (st, .error exc)
   | s :: rest =>
@@ -232,10 +267,22 @@ def encodeQuad (exc : PyErr) (st0 : EncState) (terms : List Term) : Res EncState
                   ({ te := te4, rep := { st3.rep with g := rg } },
                    .ok (r1 ++ r2 ++ r3 ++ r4 ++ [Row.quad ws wp wo wg]))
 
-/-- `encode_namespace_declaration`. -/
+/-- `encode_quad`. -/
+def encodeQuad (exc : PyErr) (st0 : EncState) (terms : List Term) : Res EncState (List Row) :=
+  match st0.te.beginRow with
+  | .error e => (st0, .error e)
+  | .ok te =>
+    match encodeQuadBody exc { st0 with te := te } terms with
+    | (st', .error e) => ({ st' with rep := st0.rep }, .error e)
+    | (st', .ok rows) => ({ st' with te := st'.te.endRow }, .ok rows)
+
+/-- `encode_namespace_declaration`: `start_row()`, the IRI, `end_row()`. -/
 def encodeNamespace (te : TermEnc) (name iri : String) : Res TermEnc (List Row) :=
-  match te.startRow.iriIndices iri with
-  | (te', .error e) => (te', .error e)
-  | (te', .ok (rows, p, n)) => (te', .ok (rows ++ [Row.namespace name (some (p, n))]))
+  match te.beginRow with
+  | .error e => (te, .error e)
+  | .ok te0 =>
+    match te0.iriIndices iri with
+    | (te', .error e) => (te', .error e)
+    | (te', .ok (rows, p, n)) => (te'.endRow, .ok (rows ++ [Row.namespace name (some (p, n))]))
 
 end Jelly
